@@ -64,6 +64,11 @@ def view_catalogue(shape, rng, small=True, with_arrays=True, max_views=None, ell
         mask = np.zeros(shape, dtype=bool)
         mask.flat[::2] = True
         views.append(mask)
+        # boolean masks over the leading axes only (numpy keeps the remaining axes)
+        for k in range(1, d):
+            lead = np.zeros(shape[:k], dtype=bool)
+            lead.flat[::2] = True
+            views.append(lead)
     if max_views and len(views) > max_views:
         arrays = [v for v in views if isinstance(v, np.ndarray) or (isinstance(v, tuple) and any(isinstance(x, np.ndarray) for x in v))]
         rest = [v for v in views[2:] if not any(v is a for a in arrays)]
